@@ -66,6 +66,19 @@ __CPROVER_loop_invariant(i <= n && diff <= i && (diff == 0 ==> (g_k < i ==> left
 __CPROVER_decreases(n - i)
 '''
 
+PRE += r'''
+/* ---- aes_factory(algo, key): how a combined key is split into the AES key and the HMAC key.  crypto::key is (p,n); key::set(p,n) is a recorder */
+struct ckey { char const *p; size_t n; };
+enum { KEY_CBC, KEY_HMAC };
+bool g_cbc_supported; size_t g_digest_size, g_cbc_key_size; int g_ks_calls[2]; char const *g_ks_p[2]; size_t g_ks_n[2];
+char *g_hm_out[2]; int g_hm_readouts, g_hm_appends; size_t g_hm_dsize; char const *g_hm_name;
+static void key_set(int which, char const *p, size_t n) { g_ks_calls[which]++; g_ks_p[which] = p; g_ks_n[which] = n; __CPROVER_assert(n == 0 || __CPROVER_r_ok(p, n), "key::set(p,n) reads n bytes at p"); }
+/* crypto::hmac mac(name,key): digest size 32 for "sha256", 64 for "sha512"; readout writes digest_size bytes */
+static void hmac_init(char const *name, struct ckey const *k) { g_hm_name = name; g_hm_dsize = (name[3] == '2') ? 32 : 64; g_hm_readouts = 0; g_hm_appends = 0; }
+static size_t hmac_dsize(void) { return g_hm_dsize; }
+static void hmac_append(char const *p, size_t n) { g_hm_appends++; }
+static void hmac_readout(char *out) { __CPROVER_assert(__CPROVER_w_ok(out, g_hm_dsize), "hmac::readout writes digest_size bytes"); if(g_hm_readouts < 2) g_hm_out[g_hm_readouts] = out; g_hm_readouts++; }
+'''
 functions = [
     dict(cname='hmac_equal', file=H, locate=lit('bool hmac_cipher::equal(void const *a,void const *b,size_t n)'), sig='bool hmac_equal(void const *a, void const *b, size_t n)',
          loops={0: EQ_INV},
@@ -115,6 +128,26 @@ __CPROVER_ensures(!__CPROVER_return_value ==> !g_plain_set)
 /* a failed MAC never reaches the block cipher */
 __CPROVER_ensures((g_eq_called && !g_eq_result) ==> (!g_dec_called && !__CPROVER_return_value))
 '''),
+    dict(cname='aes_factory_split', file=A, locate=r'aes_factory::aes_factory\(std::string const &algo,crypto::key const &k\)\s*:\s*cbc_\(algo\),\s*hmac_\("sha1"\)',
+         sig='void aes_factory_split(struct ckey const *k)', throw_ret='',
+         rewrites=[(r'std::unique_ptr<crypto::message_digest> md_ptr\(crypto::message_digest::create_by_name\(hmac_\)\);', '', 1), (r'std::unique_ptr<crypto::cbc> cbc_ptr\(crypto::cbc::create\(algo\)\);', '', 1),
+                   (r'!cbc_ptr\.get\(\)', '!g_cbc_supported', 1), (r'md_ptr->digest_size\(\)', 'g_digest_size', 1), (r'cbc_ptr->key_size\(\)', 'g_cbc_key_size', 1),
+                   (r'k\.size\(\)', 'k->n', 4), (r'k\.data\(\)', 'k->p', 2), (r'cbc_key_\.set\(', 'key_set(KEY_CBC, ', 2), (r'hmac_key_\.set\(', 'key_set(KEY_HMAC, ', 2),
+                   (r'std::string name = ', 'char const *name = ', 1), (r'crypto::hmac mac\(name,k\);', 'hmac_init(name, k);', 1),
+                   (r'std::vector<char> (k\w)\(mac\.digest_size\(\),\w\);', r'char \1[64] = {0};', 2), (r'mac\.append\(', 'hmac_append(', 2), (r'mac\.readout\(&(k\w)\[\w\]\)', r'hmac_readout(\1)', 2),
+                   (r'&(k\w)\[\w\]', r'\1', 4), (r'(k\w)\.size\(\)', 'hmac_dsize()', 2), (r'std::ostringstream ss;\s*ss\s*<<(?:[^;"]|"[^"]*")*;', '', 1)],
+         contract=r'''
+__CPROVER_requires(k->n <= 4096 && __CPROVER_r_ok(k->p, k->n) && g_digest_size >= 16 && g_digest_size <= 64 && g_cbc_key_size >= 16 && g_cbc_key_size <= 32 &&
+                   g_ks_calls[0] == 0 && g_ks_calls[1] == 0 && verif_thrown == 0)
+__CPROVER_assigns(verif_thrown, __CPROVER_object_whole(g_ks_calls), __CPROVER_object_whole(g_ks_p), __CPROVER_object_whole(g_ks_n), __CPROVER_object_whole(g_hm_out), g_hm_readouts, g_hm_appends, g_hm_dsize, g_hm_name)
+/* either the key is refused, or both keys are set exactly once with the lengths the two primitives need */
+__CPROVER_ensures(verif_thrown ? (g_ks_calls[0] == 0 && g_ks_calls[1] == 0) : (g_ks_calls[0] == 1 && g_ks_calls[1] == 1 && g_ks_n[KEY_CBC] == g_cbc_key_size && g_ks_n[KEY_HMAC] == g_digest_size))
+/* combined key: the AES key is the first cbc_key_size bytes, the MAC key the remaining digest_size bytes: every key byte is used, none twice
+   (a cookie sealed under a key that differs in ANY byte must not verify, so no byte of the configured key may be ignored) */
+__CPROVER_ensures((!verif_thrown && k->n == g_cbc_key_size + g_digest_size) ==> (g_ks_p[KEY_CBC] == k->p && g_ks_p[KEY_HMAC] == k->p + g_cbc_key_size && g_ks_n[KEY_CBC] + g_ks_n[KEY_HMAC] == k->n))
+/* any other accepted key: both keys are derived from the WHOLE key with a keyed hash (two different read-outs), never cut out of it */
+__CPROVER_ensures((!verif_thrown && k->n != g_cbc_key_size + g_digest_size) ==> (k->n >= g_cbc_key_size && g_hm_readouts == 2 && g_hm_appends == 2 && g_ks_p[KEY_CBC] == g_hm_out[0] && g_ks_p[KEY_HMAC] == g_hm_out[1] && g_hm_out[0] != g_hm_out[1]))
+'''),
 ]
 
 CTX_SETUP = r'''
@@ -131,6 +164,10 @@ jobs = [
          witness=dict(vals=['n', 'digest_size', 'block_size'])),
     dict(name='aes_decrypt', props=P, enforce='aes_decrypt', harness=CTX_SETUP + 'aes_decrypt(&c); VERIF_REACH;',
          witness=dict(vals=['n', 'digest_size', 'block_size'])),
+    dict(name='aes_factory_split', props=P, enforce='aes_factory_split', harness=r'''
+    struct ckey k; size_t kn; __CPROVER_assume(kn <= 4096); char *kb = malloc(kn); __CPROVER_assume(kb != NULL); k.p = kb; k.n = kn;
+    size_t ds, cs; int ok; g_digest_size = ds; g_cbc_key_size = cs; g_cbc_supported = ok != 0; g_ks_calls[0] = 0; g_ks_calls[1] = 0; verif_thrown = 0;
+    aes_factory_split(&k); VERIF_REACH;'''),
 ]
 
 UNIT = dict(
